@@ -182,15 +182,12 @@ class AsyncSimpleClient:
         additional list elements.
         """
         while not self.input_buffer:
-            try:
-                await asyncio.wait_for(self.connected_event.wait(),
-                                       timeout=timeout)
-            except asyncio.TimeoutError:  # pragma: no cover
-                if self.input_buffer:
-                    break
-                raise TimeoutError()
-            if not self.connected and not self.input_buffer:
+            if not self.connected and self.connected_event.is_set():
+                # the connection has ended for good
                 raise DisconnectedError()
+            # (an event is also waited for during a reconnection: one that
+            # arrives then is not held back until the reconnection is over,
+            # and the final end of the connection sets this event too)
             try:
                 await asyncio.wait_for(self.input_event.wait(),
                                        timeout=timeout)
